@@ -10,10 +10,10 @@ def build_path(mesh : Mesh, paths):
     k = 0
     for l in paths.values():
         if len(l)>0:
-            path_mesh.vertices.append(mesh.vertices[l[0]])
+            path_mesh.vertices.append(mesh.vertices[l[0]].copy())
         if len(l)>1:
             for i in range(1, len(l)):
-                path_mesh.vertices.append(mesh.vertices[l[i]])
+                path_mesh.vertices.append(mesh.vertices[l[i]].copy())
                 path_mesh.edges.append((k+i-1,k+i))
         k += len(l)
     return path_mesh
